@@ -100,9 +100,9 @@ def rule_mempool_handover(ctx):
               f'hand-over is not exactly "after each refresh that did not raise DBSyncError" (handlers: {caught})', loc=ctx.loc(f, om))
     n += 1
     # the height is re-checked around the listing (listing and height belong together)
-    conts = [s for s in loop.body if isinstance(s, ast.If) and any(isinstance(x, ast.Continue) for x in s.body)]
-    okc = len(conts) == 1 and isinstance(conts[0].test, ast.Compare) and isinstance(conts[0].test.ops[0], ast.NotEq) and \
-        norm(om.args[1]) in norm(conts[0].test) and 'self.api.height()' in norm(conts[0].test)
+    from . import c09
+    lists = [c for c in q.own_calls(f) if q.callee_name(ctx, f, c) == 'self.api.mempool_hashes']
+    okc = len(hdefs) == 1 and len(lists) == 1 and c09.bracketed_listing(ctx, f, hdefs[0], lists[0], pm)
     ctx.check(okc, 'C07.HANDOVER', ctx.key(f, None, 'height stable across the listing'),
               'a listing is used only if the daemon height was the same before and after it',
               'the mempool listing is not bracketed by an unchanged daemon height', loc=ctx.loc(f, f.node))
